@@ -1256,3 +1256,1372 @@ Proof.
   - rewrite (H10 i (k, v)); [|lia|exact Hsl]. rewrite Nat.sub_0_r. reflexivity.
   - rewrite H9 by lia. exact Hsl.
 Qed.
+
+(* ###################################################################### *)
+(* SECOND ROUND                                                            *)
+(* ###################################################################### *)
+
+(* ====================================================================== *)
+(* R2-A (C06): the remaining reference-returning operations               *)
+(* ====================================================================== *)
+Section RefsInside2.
+Context {K V Q T : Type} (E : env K V Q T) (debug : bool).
+Notation M := (M K V T). Notation world := (world K V T). Notation map := (map K V).
+
+(* get_disjoint_mut: every index returned is inside, indices pairwise distinct *)
+Lemma disjoint_inside ks (w : world) :
+  WF (self w) ->
+  wp (get_disjoint_mut E ks)
+     (fun r w' => self w' = self w /\ length r = length ks /\
+        (forall j i, nth_error r j = Some (Some i) -> inside (self w) i) /\
+        (forall j1 j2 i, nth_error r j1 = Some (Some i) -> nth_error r j2 = Some (Some i) -> j1 = j2))
+     (fun w' => self w' = self w) w.
+Proof.
+  intros Hw. eapply wp_mono; [apply (disjoint_safe E ks w Hw) | |]; cbn beta; [|auto].
+  intros r w' (H1 & H2 & H3 & H4). split; [exact H1|]. split; [exact H2|]. split; [|exact H4].
+  intros j i Hj. apply WF_inside; [exact Hw | exact (H3 j i Hj)].
+Qed.
+
+(* the entry API: the returned slot is inside the container AS IT IS AFTER the call *)
+Lemma vac_insert_inside k v (w : world) :
+  WF (self w) ->
+  wp (vac_insert E debug k v)
+     (fun i w' => inv_post w w' /\ inside (self w') i) (inv_post w) w.
+Proof.
+  intros Hw. eapply wp_mono; [apply (vac_insert_spec E debug k v w Hw) | |]; cbn beta; [|auto].
+  intros i w' [H1 H2]. split; [exact H1|]. apply WF_inside; [apply H1 | exact H2].
+Qed.
+
+Lemma or_insert_inside (e : @entry K) v (w : world) :
+  WF (self w) -> entry_ok e (self w) ->
+  wp (or_insert E debug e v)
+     (fun i w' => inv_post w w' /\ inside (self w') i) (inv_post w) w.
+Proof.
+  intros Hw He. eapply wp_mono; [apply (or_insert_spec E debug e v w Hw He) | |]; cbn beta; [|auto].
+  intros i w' [H1 H2]. split; [exact H1|]. apply WF_inside; [apply H1 | exact H2].
+Qed.
+
+(* or_insert_with; or_default is or_insert_with(Default::default) *)
+Lemma or_insert_with_inside (e : @entry K) f (w : world) :
+  WF (self w) -> entry_ok e (self w) ->
+  wp (or_insert_with E debug e f)
+     (fun i w' => inv_post w w' /\ inside (self w') i) (inv_post w) w.
+Proof.
+  intros Hw He. eapply wp_mono; [apply (or_insert_with_spec E debug e f w Hw He) | |]; cbn beta; [|auto].
+  intros i w' [H1 H2]. split; [exact H1|]. apply WF_inside; [apply H1 | exact H2].
+Qed.
+
+Lemma or_insert_with_key_inside (e : @entry K) f (w : world) :
+  WF (self w) -> entry_ok e (self w) ->
+  wp (or_insert_with_key E debug e f)
+     (fun i w' => inv_post w w' /\ inside (self w') i) (inv_post w) w.
+Proof.
+  intros Hw He. eapply wp_mono; [apply (or_insert_with_key_spec E debug e f w Hw He) | |]; cbn beta; [|auto].
+  intros i w' [H1 H2]. split; [exact H1|]. apply WF_inside; [apply H1 | exact H2].
+Qed.
+
+(* the whole chains map.entry(k).or_insert*(..), every environment *)
+Lemma entry_or_insert_inside k (fin : @entry K -> M nat) (w : world) :
+  (exists v, fin = fun e => or_insert E debug e v) \/
+  (exists f, fin = fun e => or_insert_with E debug e f) \/
+  (exists f, fin = fun e => or_insert_with_key E debug e f) ->
+  WF (self w) ->
+  wp (e <- entry_of E k ;; fin e)
+     (fun i w' => inv_post w w' /\ inside (self w') i) (inv_post w) w.
+Proof.
+  intros Hfin Hw. apply wp_bind.
+  eapply wp_mono; [apply (entry_of_spec E k w Hw) | |]; cbn beta.
+  - intros e w1 [Hs1 He].
+    assert (Hw1 : WF (self w1)) by (rewrite Hs1; exact Hw).
+    assert (He1 : entry_ok e (self w1)) by (rewrite Hs1; exact He).
+    assert (H : wp (fin e) (fun i w' => inv_post w1 w' /\ inside (self w') i) (inv_post w1) w1).
+    { destruct Hfin as [[v ->]|[[f ->]|[f ->]]].
+      - apply or_insert_inside; assumption.
+      - apply or_insert_with_inside; assumption.
+      - apply or_insert_with_key_inside; assumption. }
+    eapply wp_mono; [exact H | |]; cbn beta.
+    + intros i w2 [H1 H2]. split; [eapply inv_post_base; eauto | exact H2].
+    + intros w2 H1. eapply inv_post_base; eauto.
+  - intros w1 Hs1. apply inv_post_refl; auto.
+Qed.
+
+(* ---- retain: the &K / &mut V handed to the closure ---- *)
+
+(* one call of the closure on slot i: the references it receives are those of
+   the pair stored in slot i, which is inside; the value it leaves is written
+   back into that same slot under the same key; nothing else changes *)
+Lemma call_pred_inside (f : pred_t) i (w : world) :
+  WF (self w) -> i < len (self w) ->
+  let post := fun w' : world =>
+    inside (self w) i /\ inside (self w') i /\ inv_post w w' /\ len (self w') = len (self w) /\
+    exists p v', nth_error (slots (self w)) i = Some (Some p) /\
+                 v' = snd (fst (f (cb w) (fst p) (snd p))) /\
+                 self w' = set_slot_m (self w) i (Some (fst p, v')) in
+  wp (call_pred f i) (fun _ => post) post w.
+Proof.
+  intros Hw Hi post. destruct (WF_live _ _ Hw Hi) as [p Hp].
+  assert (Hic : i < cap (self w)) by (apply live_lt_cap; exists p; exact Hp).
+  unfold call_pred. apply wp_bind. eapply wp_p_ref; [exact Hp|].
+  unfold wp. destruct (f (cb w) (fst p) (snd p)) as [[r v'] s] eqn:Hf.
+  assert (Hpost : forall l, post {| cb := s; log := l;
+            self := {| len := len (self w); slots := upd (slots (self w)) i (Some (fst p, v')) |} |}).
+  { intros l. unfold post. simp_w.
+    assert (Hwf' : WF (set_slot_m (self w) i (Some (fst p, v')))) by (apply WF_set_slot_some; assumption).
+    split; [apply WF_inside; assumption|].
+    split; [apply (WF_inside (set_slot_m (self w) i (Some (fst p, v')))); [exact Hwf' | exact Hi]|].
+    split; [split; [exact Hwf' | apply cap_set_slot]|]. split; [reflexivity|].
+    exists p, v'. rewrite Hf. cbn [fst snd]. auto. }
+  destruct r; apply Hpost.
+Qed.
+
+(* the loop calls the closure only on slots that pass this check: retain with an
+   explicit (UB-raising) check "slot i is inside" in front of every closure call
+   is the same computation on every well-formed container *)
+Definition assert_inside (i : nat) : M unit :=
+  fun w => match nth_error (slots (self w)) i with
+           | Some (Some _) =>
+               if (i <? len (self w)) && (len (self w) <=? cap (self w)) then Ok tt w else UB
+           | _ => UB
+           end.
+
+Lemma assert_inside_ok i (w : world) : assert_inside i w = Ok tt w <-> inside (self w) i.
+Proof.
+  unfold assert_inside, inside, live. split.
+  - destruct (nth_error (slots (self w)) i) as [[p|]|]; try discriminate.
+    destruct (Nat.ltb_spec i (len (self w))); destruct (Nat.leb_spec (len (self w)) (cap (self w)));
+      cbn [andb]; try discriminate. intros _. eauto.
+  - intros (H1 & H2 & p & Hp). rewrite Hp.
+    destruct (Nat.ltb_spec i (len (self w))); [|lia].
+    destruct (Nat.leb_spec (len (self w)) (cap (self w))); [|lia]. reflexivity.
+Qed.
+
+Fixpoint retain_loop_chk (f : pred_t) (fuel i : nat) : M unit :=
+  n <- get_len ;;
+  if i <? n then
+    match fuel with
+    | 0 => ub
+    | S fuel' =>
+        keep <- (assert_inside i ;; call_pred f i) ;;
+        if keep then retain_loop_chk f fuel' (S i)
+        else (remove_index_drop E debug i ;; retain_loop_chk f fuel' i)
+    end
+  else ret tt.
+Definition retain_chk (f : pred_t) : M unit := n <- get_len ;; retain_loop_chk f n 0.
+
+Lemma bind_ext_wp {A B} (c : M A) (f g : A -> M B) (w : world) :
+  wp c (fun a w' => f a w' = g a w') (fun _ => True) w -> bind c f w = bind c g w.
+Proof. unfold wp, bind. destruct (c w); auto. Qed.
+
+Lemma get_len_bind {A} (k : nat -> M A) (w : world) : bind get_len k w = k (len (self w)) w.
+Proof. reflexivity. Qed.
+
+Lemma assert_inside_bind {A B} i (c : M A) (k : A -> M B) (w : world) :
+  assert_inside i w = Ok tt w -> bind (bind (assert_inside i) (fun _ => c)) k w = bind c k w.
+Proof. intros H. unfold bind. rewrite H. reflexivity. Qed.
+
+Lemma retain_loop_chk_eq (f : pred_t) : forall fuel i (w : world),
+  WF (self w) -> retain_loop E debug f fuel i w = retain_loop_chk f fuel i w.
+Proof.
+  induction fuel as [|fuel IH]; intros i w Hw; cbn [retain_loop retain_loop_chk]; [reflexivity|].
+  rewrite !get_len_bind. destruct (Nat.ltb_spec i (len (self w))) as [Hi|Hi]; [|reflexivity].
+  assert (Ha : assert_inside i w = Ok tt w) by (apply assert_inside_ok; apply WF_inside; assumption).
+  rewrite (assert_inside_bind i _ _ w Ha).
+  apply bind_ext_wp.
+  eapply wp_mono; [apply (call_pred_spec f i w Hw Hi) | |]; cbn beta; [|auto].
+  intros keep w1 [H1 Hl1]. assert (Hw1 : WF (self w1)) by apply H1. destruct keep.
+  - apply IH. exact Hw1.
+  - apply bind_ext_wp.
+    eapply wp_mono; [apply (keeps_remove_index_drop E debug i w1 Hw1); lia | |]; cbn beta; [|auto].
+    intros _ w2 [H2 _]. apply IH. apply H2.
+Qed.
+
+Lemma retain_chk_eq (f : pred_t) (w : world) :
+  WF (self w) -> retain E debug f w = retain_chk f w.
+Proof. intros Hw. unfold retain, retain_chk. rewrite !get_len_bind. apply retain_loop_chk_eq. exact Hw. Qed.
+
+End RefsInside2.
+
+(* ====================================================================== *)
+(* R2-B (C09): whole sessions, many writes then lookups, count vs Exec     *)
+(* ====================================================================== *)
+Lemma nth_error_ext_eq {A} : forall l l' : list A,
+  (forall j, nth_error l j = nth_error l' j) -> l = l'.
+Proof.
+  induction l as [|a l IH]; intros [|b l'] H; [reflexivity | discriminate (H 0) | discriminate (H 0) |].
+  pose proof (H 0) as H0. cbn [nth_error] in H0. injection H0 as ->. f_equal.
+  apply IH. intros j. exact (H (S j)).
+Qed.
+
+Section ExecIter2.
+Notation mworld := (world key vobj cstate).
+Notation sworld := (world key unit cstate).
+
+(* Set::iter, the whole interpreter session (SetIter has no Debug renderings) *)
+Lemma set_iter_session_obs steps (w : sworld) :
+  WF (self w) ->
+  wp (set_iter_session steps)
+     (fun r w' =>
+        let pos := Nat.min steps (len (self w)) in
+        let rest := len (self w) - pos in
+        w' = w /\
+        r = steps_obs (fun p : key * unit => r_key (fst p)) (slots (self w)) steps 0 (len (self w)) ++
+            [nn rest] ++ List.map nn (seq pos rest) ++ [nn rest])
+     (fun _ => False) w.
+Proof.
+  intros Hw. unfold set_iter_session. apply wp_bind.
+  eapply wp_mono; [apply iter_exact; exact Hw | | auto]; cbn beta.
+  intros c w0 [-> ->]. apply wp_bind.
+  eapply wp_mono; [apply (set_iter_steps_obs steps 0 (len (self w)) [] w Hw (Nat.le_refl _)) | | auto];
+    cbn beta.
+  intros [acc c'] w1. cbn [fst snd]. rewrite Nat.sub_0_r. intros (-> & -> & ->). cbn [Nat.add app].
+  unfold cursor_len. cbn [fst snd]. apply wp_bind.
+  pose proof (Nat.le_min_r steps (len (self w))) as Hm.
+  eapply wp_mono; [apply (rest_slots_s_exact _ _ w Hw); lia | | auto]; cbn beta.
+  intros rest w2 [-> ->]. apply wp_ret. cbv zeta. split; [reflexivity|].
+  rewrite map_length, seq_length. reflexivity.
+Qed.
+
+(* iter_mut / values_mut, the whole interpreter session: the per-step
+   observations, the two Debug renderings, 0 (these iterators are not Clone:
+   no clone is consumed) and the final len() = number of items not yet
+   yielded; the content afterwards: entry i < steps has payload wd + i, same
+   key, same value object; all other entries, len, cap, log unchanged *)
+Lemma iter_session_mut_obs kind steps wd (w : mworld) :
+  WF (self w) -> is_mut_kind kind = true ->
+  wp (iter_session kind steps wd)
+     (fun r w' =>
+        let rest := len (self w) - Nat.min steps (len (self w)) in
+        (exists d0 d1,
+           r = steps_obs (r_item kind) (slots (self w)) steps 0 (len (self w)) ++ d0 ++ d1 ++
+               [0%N] ++ [nn rest]) /\
+        WF (self w') /\ len (self w') = len (self w) /\ cap (self w') = cap (self w) /\
+        log w' = log w /\
+        forall i k v, nth_error (Spec.elems (self w)) i = Some (k, v) ->
+          nth_error (Spec.elems (self w')) i =
+            Some (k, if i <? steps then {| vid := vid v; vdat := wd + nn i |} else v))
+     (fun _ => False) w.
+Proof.
+  intros Hw Hk. unfold iter_session.
+  apply (wp_bind_assoc iter (fun c => iter_steps kind wd steps 0 c [])).
+  apply wp_bind.
+  eapply wp_mono; [apply (iter_mut_session_writes kind wd steps w Hw Hk) | | auto]; cbn beta.
+  intros [acc c'] w1 (Ha & Hc & Hw1 & Hl1 & Hc1 & Hlog1 & He1). cbn [fst snd] in Ha, Hc. subst acc c'.
+  unfold dbg_iter at 1. apply wp_bind. unfold wp at 1. cbv beta iota.
+  unfold dbg_iter at 1. apply wp_bind. unfold wp at 1. cbv beta iota.
+  rewrite Hk. apply wp_bind. apply wp_ret. apply wp_ret. cbv zeta.
+  split; [|auto 10].
+  eexists. eexists. unfold cursor_len. cbn [fst snd length app]. reflexivity.
+Qed.
+
+(* many writes, then lookups: after n steps of iter_mut()/values_mut() that
+   write wd + j at step j, looking up the key of ANY entry i returns slot i, and
+   that slot holds the same key, the same value object, and payload wd + i if
+   i < n, the old payload otherwise.  E is any lawful environment on the
+   interpreter's element types (e.g. env_map sc for an honest script). *)
+Lemma iter_mut_writes_then_get (E : env key vobj query cstate) (HL : Lawful E kcls qcls)
+      kind wd n i k v q (w : mworld) :
+  WF (self w) -> is_mut_kind kind = true -> Uniq kcls (Spec.elems (self w)) ->
+  nth_error (Spec.elems (self w)) i = Some (k, v) -> qcls q = kcls k ->
+  wp (c <- iter ;; _ <- iter_steps kind wd n 0 c [] ;;
+      o <- get E q ;;
+      match o with
+      | Some x => p <- p_ref x ;; ret (Some (x, p))
+      | None => ret None
+      end)
+     (fun res w' =>
+        res = Some (i, (k, if i <? n then {| vid := vid v; vdat := wd + nn i |} else v)) /\
+        WF (self w') /\ len (self w') = len (self w) /\ cap (self w') = cap (self w) /\
+        log w' = log w /\ Uniq kcls (Spec.elems (self w')) /\
+        List.map fst (Spec.elems (self w')) = List.map fst (Spec.elems (self w)) /\
+        List.map (fun p => vid (snd p)) (Spec.elems (self w')) =
+          List.map (fun p => vid (snd p)) (Spec.elems (self w)))
+     (fun _ => False) w.
+Proof.
+  intros Hw Hk Hu Hp Hq.
+  apply (wp_bind_assoc iter (fun c => iter_steps kind wd n 0 c [])).
+  apply wp_bind.
+  eapply wp_mono; [apply (iter_mut_session_writes kind wd n w Hw Hk) | | auto]; cbn beta.
+  intros r w1 (_ & _ & Hw1 & Hl1 & Hc1 & Hlog1 & He1).
+  set (nv := fun (j : nat) (v0 : vobj) => if j <? n then {| vid := vid v0; vdat := wd + nn j |} else v0).
+  (* pointwise description of the new content *)
+  assert (Hlen : length (Spec.elems (self w1)) = length (Spec.elems (self w)))
+    by (rewrite (elems_length _ Hw1), (elems_length _ Hw); exact Hl1).
+  assert (Hback : forall j q0, nth_error (Spec.elems (self w1)) j = Some q0 ->
+            exists k0 v0, nth_error (Spec.elems (self w)) j = Some (k0, v0) /\ q0 = (k0, nv j v0)).
+  { intros j q0 Hj.
+    assert (Hjl : j < length (Spec.elems (self w))).
+    { rewrite <- Hlen. apply nth_error_Some. rewrite Hj. discriminate. }
+    destruct (nth_error (Spec.elems (self w)) j) as [[k0 v0]|] eqn:Hj0;
+      [|apply nth_error_None in Hj0; lia].
+    exists k0, v0. split; [reflexivity|]. rewrite (He1 j k0 v0 Hj0) in Hj. injection Hj as <-. reflexivity. }
+  assert (Hmapg : forall (X : Type) (g : key * vobj -> X),
+            (forall j k0 v0, g (k0, nv j v0) = g (k0, v0)) ->
+            List.map g (Spec.elems (self w1)) = List.map g (Spec.elems (self w))).
+  { intros X g Hg. apply nth_error_ext_eq. intros j. rewrite !nth_error_map.
+    destruct (nth_error (Spec.elems (self w1)) j) as [q0|] eqn:Hj.
+    - destruct (Hback j q0 Hj) as (k0 & v0 & Hj0 & ->). rewrite Hj0. cbn [option_map]. rewrite Hg. reflexivity.
+    - apply nth_error_None in Hj. rewrite Hlen in Hj. apply nth_error_None in Hj. rewrite Hj. reflexivity. }
+  assert (Hkeys : List.map fst (Spec.elems (self w1)) = List.map fst (Spec.elems (self w)))
+    by (apply Hmapg; reflexivity).
+  assert (Hvids : List.map (fun p => vid (snd p)) (Spec.elems (self w1)) =
+                  List.map (fun p => vid (snd p)) (Spec.elems (self w))).
+  { apply Hmapg. intros j k0 v0. unfold nv. cbn [snd]. destruct (j <? n); reflexivity. }
+  assert (Hu1 : Uniq kcls (Spec.elems (self w1))).
+  { unfold Uniq in *. rewrite (Hmapg _ (fun p => kcls (fst p))) by reflexivity. exact Hu. }
+  assert (Hp1 : nth_error (Spec.elems (self w1)) i = Some (k, nv i v)) by exact (He1 i k v Hp).
+  apply wp_bind.
+  eapply wp_mono; [apply (get_lawful E kcls qcls HL q w1 Hw1) | | auto]; cbn beta.
+  intros o w2 ([Hs2 Hl2] & ->). rewrite Hq.
+  change (kcls k) with (kcls (fst (k, nv i v))).
+  rewrite (find_idx_uniq_nth kcls _ i (k, nv i v) Hu1 Hp1).
+  destruct (elems_nth_slot _ _ _ Hw1 Hp1) as [Hi1 Hsl1].
+  apply wp_bind. eapply wp_p_ref; [rewrite Hs2; exact Hsl1|]. apply wp_ret.
+  split; [reflexivity|]. rewrite Hs2. split; [exact Hw1|]. split; [exact Hl1|]. split; [exact Hc1|].
+  split; [congruence|]. split; [exact Hu1|]. split; [exact Hkeys | exact Hvids].
+Qed.
+
+(* count(): the interpreter observes count() as the length of what a consumed
+   clone yields (Exec.rest_slots); MoreIter.iter_count returns that number *)
+Lemma iter_count_is_rest_len lo hi (w : mworld) :
+  WF (self w) -> lo <= hi -> hi <= len (self w) ->
+  wp (x <- iter_count (lo, hi) ;; rest <- rest_slots (cursor_len (lo, hi)) (fst (lo, hi)) ;; ret (x, rest))
+     (fun y w' => w' = w /\ fst (fst y) = length (snd y) /\ fst (fst y) = cursor_len (lo, hi) /\
+                  snd y = List.map nn (seq lo (hi - lo)))
+     (fun _ => False) w.
+Proof.
+  intros Hw H1 H2. apply wp_bind.
+  eapply wp_mono; [apply (iter_count_from lo hi w Hw H1 H2) | | auto]; cbn beta.
+  intros x w1 (-> & Hx & _). apply wp_bind. unfold cursor_len. cbn [fst snd].
+  eapply wp_mono; [apply (rest_slots_exact (hi - lo) lo w Hw); lia | | auto]; cbn beta.
+  intros rest w2 [-> ->]. apply wp_ret. cbn [fst snd]. rewrite map_length, seq_length. auto.
+Qed.
+
+Lemma iter_count_is_rest_len_s lo hi (w : sworld) :
+  WF (self w) -> lo <= hi -> hi <= len (self w) ->
+  wp (x <- iter_count (lo, hi) ;; rest <- rest_slots_s (cursor_len (lo, hi)) (fst (lo, hi)) ;; ret (x, rest))
+     (fun y w' => w' = w /\ fst (fst y) = length (snd y) /\ fst (fst y) = cursor_len (lo, hi) /\
+                  snd y = List.map nn (seq lo (hi - lo)))
+     (fun _ => False) w.
+Proof.
+  intros Hw H1 H2. apply wp_bind.
+  eapply wp_mono; [apply (iter_count_from lo hi w Hw H1 H2) | | auto]; cbn beta.
+  intros x w1 (-> & Hx & _). apply wp_bind. unfold cursor_len. cbn [fst snd].
+  eapply wp_mono; [apply (rest_slots_s_exact (hi - lo) lo w Hw); lia | | auto]; cbn beta.
+  intros rest w2 [-> ->]. apply wp_ret. cbn [fst snd]. rewrite map_length, seq_length. auto.
+Qed.
+
+End ExecIter2.
+
+(* ====================================================================== *)
+(* R2-C (C10): the interpreter's consuming sessions                        *)
+(* ====================================================================== *)
+
+(* what n calls of next() on a consuming iterator that still holds the entries
+   l (in the order it will yield them) report: before EVERY step the hint is the
+   number of entries still held; then 1 and the rendered item, or 0 once
+   exhausted (and again hint 0, then 0, at every later step) *)
+Fixpoint cons_obs {V} (item : key * V -> list N) (l : list (key * V)) (n : nat) : list N :=
+  match n with
+  | 0 => []
+  | S n' => match l with
+            | [] => [0%N; 0%N] ++ cons_obs item [] n'
+            | p :: t => [nn (length l); 1%N] ++ item p ++ cons_obs item t n'
+            end
+  end.
+
+Lemma nth_error_skipn_add {A} : forall (l : list A) i j, nth_error (skipn i l) j = nth_error l (i + j).
+Proof.
+  induction l as [|a l IH]; intros [|i] j; cbn [skipn Nat.add nth_error]; try reflexivity.
+  - destruct j; reflexivity.
+  - apply IH.
+Qed.
+
+Section DrainObs.
+Context {V : Type}.
+Notation world := (world key V cstate). Notation kv := (key * V)%type.
+
+Lemma slot_pairs_length c (m : map key V) :
+  DrainInv c m -> length (slot_pairs m c) = cursor_len c.
+Proof.
+  intros (Hl & Hc & Hs). unfold slot_pairs.
+  apply take_live_all_live.
+  - rewrite skipn_length. fold (cap m). unfold cursor_len. lia.
+  - intros i Hi. unfold cursor_len in Hi.
+    destruct (Hs (fst c + i)) as [p Hp]; [lia|]. exists p. rewrite nth_error_skipn_add. exact Hp.
+Qed.
+
+(* Drain::next, exactly *)
+Lemma drain_next_exact lo hi (w : world) :
+  DrainInv (lo, hi) (self w) ->
+  wp (drain_next (lo, hi))
+     (fun r w' =>
+        if lo <? hi then
+          exists p, nth_error (slots (self w)) lo = Some (Some p) /\ r = (Some p, (S lo, hi)) /\
+                    w' = with_self w (set_slot_m (self w) lo None) /\
+                    DrainInv (S lo, hi) (self w') /\
+                    slot_pairs (self w) (lo, hi) = p :: slot_pairs (self w') (S lo, hi)
+        else r = (None, (lo, hi)) /\ w' = w /\ slot_pairs (self w) (lo, hi) = [])
+     (fun _ => False) w.
+Proof.
+  intros HD. pose proof HD as (HDl & HDc & HDs). cbn [fst snd] in HDc, HDs.
+  unfold drain_next. destruct (Nat.ltb_spec lo hi) as [Hlt|Hge].
+  - destruct (HDs lo) as [p Hp]; [lia|].
+    apply wp_bind. eapply wp_p_read; [exact Hp|]. apply wp_ret.
+    exists p. split; [exact Hp|]. split; [reflexivity|]. split; [reflexivity|]. simp_w. split.
+    + unfold DrainInv. cbn [fst snd]. rewrite cap_set_slot, len_set_slot.
+      split; [exact HDl|]. split; [exact HDc|].
+      intros j Hj. apply live_set_slot_neq; [lia | apply HDs; lia].
+    + unfold slot_pairs, cursor_len. cbn [fst snd set_slot_m slots].
+      replace (hi - lo) with (S (hi - S lo)) by lia.
+      rewrite (skipn_nth (slots (self w)) lo (Some p) Hp). cbn [take_live].
+      rewrite skipn_upd_lt by lia. reflexivity.
+  - apply wp_ret. split; [reflexivity|]. split; [reflexivity|].
+    unfold slot_pairs, cursor_len. cbn [fst snd]. replace (hi - lo) with 0 by lia. reflexivity.
+Qed.
+
+(* Exec.drain_steps (Map::drain and Set::drain): before every step the hint
+   len()/size_hint is the number of pairs the cursor still owns; the items are
+   those pairs in slot order; the cursor advances by the number yielded *)
+Lemma drain_steps_obs (rp : kv -> list N) : forall n lo hi acc (w : world),
+  DrainInv (lo, hi) (self w) ->
+  wp (drain_steps rp n (lo, hi) acc)
+     (fun r w' =>
+        let m := Nat.min n (hi - lo) in
+        fst r = acc ++ cons_obs rp (slot_pairs (self w) (lo, hi)) n /\
+        snd r = (lo + m, hi) /\
+        DrainInv (snd r) (self w') /\
+        slot_pairs (self w') (snd r) = skipn n (slot_pairs (self w) (lo, hi)) /\
+        cb w' = cb w /\ log w' = log w /\ cap (self w') = cap (self w))
+     (fun _ => False) w.
+Proof.
+  induction n as [|n IH]; intros lo hi acc w HD; cbn [drain_steps].
+  - apply wp_ret. cbv zeta. cbn [fst snd cons_obs skipn]. rewrite Nat.min_0_l, Nat.add_0_r, app_nil_r. auto 10.
+  - apply wp_bind.
+    eapply wp_mono; [apply (drain_next_exact lo hi w HD) | | auto]; cbn beta.
+    intros [o c'] w1 H1. cbv zeta. unfold cursor_len at 1. cbn [fst snd].
+    pose proof (slot_pairs_length _ _ HD) as Hlen. unfold cursor_len in Hlen. cbn [fst snd] in Hlen.
+    destruct (Nat.ltb_spec lo hi) as [Hlt|Hge].
+    + destruct H1 as (p & Hp & Hr & -> & HD1 & Hsp). injection Hr as -> ->.
+      eapply wp_mono; [apply (IH (S lo) hi _ _ HD1) | | auto]; cbn beta.
+      intros r w2. cbv zeta. intros (H1 & H2 & H3 & H4 & H5 & H6 & H7).
+      rewrite Hsp in *. cbn [cons_obs skipn length] in *.
+      replace (Nat.min (S n) (hi - lo)) with (S (Nat.min n (hi - S lo))) by lia.
+      split.
+      { rewrite H1, <- !app_assoc. cbn [app]. rewrite Hlen. reflexivity. }
+      split; [rewrite H2; f_equal; lia|]. split; [exact H3|]. split; [exact H4|].
+      split; [exact H5|]. split; [exact H6|]. rewrite H7. apply cap_set_slot.
+    + destruct H1 as (Hr & -> & Hsp). injection Hr as -> ->.
+      eapply wp_mono; [apply (IH lo hi _ w HD) | | auto]; cbn beta.
+      intros r w2. cbv zeta. intros (H1 & H2 & H3 & H4 & H5 & H6 & H7).
+      rewrite Hsp in *. cbn [cons_obs] in *. rewrite skipn_nil in *.
+      replace (Nat.min (S n) (hi - lo)) with 0 by lia. replace (Nat.min n (hi - lo)) with 0 in * by lia.
+      split.
+      { rewrite H1, <- !app_assoc. cbn [app]. replace (hi - lo) with 0 by lia. reflexivity. }
+      auto 10.
+Qed.
+
+(* from drain() itself: the pairs are the content, in order *)
+Lemma drain_session_steps_obs (rp : kv -> list N) n (w : world) :
+  WF (self w) ->
+  wp (c <- drain ;; drain_steps rp n c [])
+     (fun r w' =>
+        fst r = cons_obs rp (Spec.elems (self w)) n /\
+        snd r = (Nat.min n (len (self w)), len (self w)) /\
+        DrainInv (snd r) (self w') /\
+        slot_pairs (self w') (snd r) = skipn n (Spec.elems (self w)) /\
+        cb w' = cb w /\ log w' = log w /\ cap (self w') = cap (self w) /\ len (self w') = 0)
+     (fun _ => False) w.
+Proof.
+  intros Hw. pose proof Hw as [Hl Hs]. apply wp_bind. unfold drain.
+  apply wp_bind. apply wp_p_prefix; [intros _ | lia].
+  apply wp_bind. apply wp_get_len. apply wp_bind. apply wp_set_len. apply wp_ret.
+  set (w1 := with_self w (set_len_m (self w) 0)).
+  assert (HD : DrainInv (0, len (self w)) (self w1)).
+  { unfold w1, DrainInv. simp_w. cbn [fst snd]. split; [reflexivity|]. split.
+    - rewrite cap_set_len. exact Hl.
+    - intros j Hj. apply live_set_len. apply Hs. lia. }
+  assert (Hsp : slot_pairs (self w1) (0, len (self w)) = Spec.elems (self w)).
+  { unfold slot_pairs, cursor_len, Spec.elems, w1. simp_w. cbn [fst snd skipn]. rewrite Nat.sub_0_r. reflexivity. }
+  eapply wp_mono; [apply (drain_steps_obs rp n 0 (len (self w)) [] w1 HD) | | auto]; cbn beta.
+  intros r w2. cbv zeta. rewrite Hsp, Nat.sub_0_r. cbn [Nat.add app].
+  intros (H1 & H2 & H3 & H4 & H5 & H6 & H7).
+  split; [exact H1|]. split; [exact H2|]. split; [exact H3|]. split; [exact H4|].
+  split; [exact H5|]. split; [exact H6|]. split; [exact H7|]. apply H3.
+Qed.
+
+End DrainObs.
+
+Lemma into_iter_next_cb {K V T} (w : world K V T) :
+  WF (self w) -> wp into_iter_next (fun _ w' => cb w' = cb w) (fun _ => False) w.
+Proof.
+  intros Hw. unfold into_iter_next. apply wp_bind. apply wp_get_len.
+  destruct (len (self w)) as [|n] eqn:Hn; [apply wp_ret; reflexivity|].
+  assert (Hi : n < len (self w)) by lia. destruct (WF_live _ _ Hw Hi) as [p Hp].
+  apply wp_bind. apply wp_set_len. apply wp_bind.
+  eapply wp_p_read; [simp_w; exact Hp|]. apply wp_ret. reflexivity.
+Qed.
+
+(* ---- Exec.into_steps (into_iter / into_keys / into_values) and
+        Exec.set_into_steps (Set::into_iter) ---- *)
+Section IntoObs.
+Context (sc : script).
+Notation Em := (env_map sc).
+Notation Es := (env_set sc).
+Notation mworld := (world key vobj cstate).
+Notation sworld := (world key unit cstate).
+
+(* what the caller receives, and what next() destroys on the way *)
+Definition r_into (kind : N) (p : key * vobj) : list N :=
+  if N.eqb kind 1 then r_key (fst p) else if N.eqb kind 2 then r_val (snd p) else r_pair p.
+Definition into_evs (kind : N) (p : key * vobj) : list event :=
+  if N.eqb kind 1 then ev_drops (idV Em (snd p))
+  else if N.eqb kind 2 then ev_drops (idK Em (fst p)) else [].
+
+Lemma into_steps_item_spec kind p (w : mworld) :
+  let post := fun w' : mworld => self w' = self w /\ log w' = log w ++ into_evs kind p in
+  wp (into_steps_item sc kind p) (fun it w' => it = r_into kind p /\ post w') post w.
+Proof.
+  intros post. subst post. unfold into_steps_item, r_into, into_evs.
+  destruct (N.eqb kind 1); [|destruct (N.eqb kind 2)].
+  - apply wp_bind. eapply wp_mono; [apply (drop_val_spec Em (snd p) w) | |]; cbn beta.
+    + intros _ w1 H. apply wp_ret. auto.
+    + auto.
+  - apply wp_bind. eapply wp_mono; [apply (drop_key_spec Em (fst p) w) | |]; cbn beta.
+    + intros _ w1 H. apply wp_ret. auto.
+    + auto.
+  - apply wp_ret. rewrite app_nil_r. auto.
+Qed.
+
+(* every script (a Drop may panic).  Normal return: the observations are
+   cons_obs over the reversed content (hint = len of what the iterator still
+   holds), the log grew by exactly the Drop events of the unused halves of the
+   yielded entries, what is left is a prefix.  Panic at step t (the Drop of the
+   unused half of entry t): entries 0..t were popped, their unused halves
+   destroyed, nothing else. *)
+Lemma into_steps_obs kind : forall n acc (w : mworld),
+  WF (self w) ->
+  wp (into_steps sc kind n acc)
+     (fun r w' =>
+        let took := firstn n (rev (Spec.elems (self w))) in
+        r = acc ++ cons_obs (r_into kind) (rev (Spec.elems (self w))) n /\
+        log w' = log w ++ flat_map (into_evs kind) took /\
+        WF (self w') /\ cap (self w') = cap (self w) /\
+        len (self w') = len (self w) - Nat.min n (len (self w)) /\
+        Spec.elems (self w') = firstn (len (self w) - Nat.min n (len (self w))) (Spec.elems (self w)))
+     (fun w' => exists t, t < Nat.min n (len (self w)) /\
+        let took := firstn (S t) (rev (Spec.elems (self w))) in
+        log w' = log w ++ flat_map (into_evs kind) took /\
+        WF (self w') /\ cap (self w') = cap (self w) /\
+        len (self w') = len (self w) - S t /\
+        Spec.elems (self w') = firstn (len (self w) - S t) (Spec.elems (self w)))
+     w.
+Proof.
+  induction n as [|n IH]; intros acc w Hw; cbn [into_steps].
+  - apply wp_ret. cbv zeta. cbn [firstn cons_obs flat_map]. rewrite !app_nil_r, Nat.min_0_l, Nat.sub_0_r.
+    split; [reflexivity|]. split; [reflexivity|]. split; [exact Hw|]. split; [reflexivity|].
+    split; [reflexivity|]. rewrite <- (elems_length _ Hw). symmetry. apply firstn_all.
+  - apply wp_bind. apply wp_get_len. apply wp_bind.
+    eapply wp_mono; [apply into_iter_next_exact; exact Hw | | intros ? []]; cbn beta.
+    intros [p|] w1 (Hw1 & Hc1 & Hl1 & H1).
+    + destruct H1 as [Hlen He].
+      pose proof (elems_length _ Hw1) as HL1.
+      assert (Hrev : rev (Spec.elems (self w)) = p :: rev (Spec.elems (self w1)))
+        by (rewrite He, rev_app_distr; reflexivity).
+      assert (Hrl : length (rev (Spec.elems (self w))) = len (self w))
+        by (rewrite rev_length; apply elems_length; exact Hw).
+      apply wp_bind.
+      eapply wp_mono; [apply (into_steps_item_spec kind p w1) | |]; cbn beta.
+      * intros it w2 (-> & Hs2 & Hlog2).
+        assert (Hw2 : WF (self w2)) by (rewrite Hs2; exact Hw1).
+        eapply wp_mono; [apply (IH _ w2 Hw2) | |]; cbn beta; cbv zeta; rewrite Hs2.
+        -- intros r w3 (Hr & Hlog3 & Hw3 & Hc3 & Hlen3 & He3).
+           rewrite Hrev in *. cbn [firstn cons_obs flat_map].
+           split; [rewrite Hr, <- !app_assoc; cbn [app]; rewrite Hrl; reflexivity|].
+           split; [rewrite Hlog3, Hlog2, Hl1, <- app_assoc; reflexivity|].
+           split; [exact Hw3|]. split; [congruence|]. split; [lia|].
+           rewrite He3, He.
+           replace (len (self w) - Nat.min (S n) (len (self w)))
+             with (len (self w1) - Nat.min n (len (self w1))) by lia.
+           symmetry. apply firstn_app_exact. lia.
+        -- intros w3 (t & Ht & Hlog3 & Hw3 & Hc3 & Hlen3 & He3). exists (S t).
+           split; [lia|]. rewrite Hrev.
+           change (firstn (S (S t)) (p :: rev (Spec.elems (self w1))))
+             with (p :: firstn (S t) (rev (Spec.elems (self w1)))).
+           cbn [flat_map].
+           split; [rewrite Hlog3, Hlog2, Hl1, <- app_assoc; reflexivity|].
+           split; [exact Hw3|]. split; [congruence|]. split; [lia|].
+           rewrite He3, He. replace (len (self w) - S (S t)) with (len (self w1) - S t) by lia.
+           symmetry. apply firstn_app_exact. lia.
+      * intros w2 (Hs2 & Hlog2). exists 0. split; [lia|]. cbv zeta. rewrite Hrev. cbn [firstn flat_map].
+        rewrite app_nil_r, Hs2. split; [congruence|]. split; [exact Hw1|]. split; [exact Hc1|].
+        split; [lia|]. rewrite He. replace (len (self w) - 1) with (length (Spec.elems (self w1))) by lia.
+        rewrite firstn_app_exact by lia. symmetry. apply firstn_all.
+    + destruct H1 as [Hlen Hs].
+      assert (Hnil : Spec.elems (self w) = []).
+      { apply length_zero_iff_nil. rewrite (elems_length _ Hw). exact Hlen. }
+      assert (Hw1' : WF (self w1)) by exact Hw1.
+      eapply wp_mono; [apply (IH _ w1 Hw1') | |]; cbn beta; cbv zeta; rewrite Hs, Hnil, Hlen.
+      * cbn [rev]. rewrite !firstn_nil. cbn [flat_map cons_obs].
+        intros r w3 (Hr & Hlog3 & Hw3 & Hc3 & Hlen3 & He3).
+        split; [rewrite Hr, <- app_assoc; reflexivity|]. split; [congruence|].
+        split; [exact Hw3|]. split; [exact Hc3|]. split; [lia | exact He3].
+      * intros w3 (t & Ht & _). lia.
+Qed.
+
+(* Set::into_iter in the interpreter: nothing is destroyed, nothing can panic *)
+Lemma set_into_steps_obs : forall n acc (w : sworld),
+  WF (self w) ->
+  wp (set_into_steps n acc)
+     (fun r w' =>
+        r = acc ++ cons_obs (fun p : key * unit => r_key (fst p)) (rev (Spec.elems (self w))) n /\
+        log w' = log w /\ cb w' = cb w /\
+        WF (self w') /\ cap (self w') = cap (self w) /\
+        len (self w') = len (self w) - Nat.min n (len (self w)) /\
+        Spec.elems (self w') = firstn (len (self w) - Nat.min n (len (self w))) (Spec.elems (self w)))
+     (fun _ => False) w.
+Proof.
+  induction n as [|n IH]; intros acc w Hw; cbn [set_into_steps].
+  - apply wp_ret. cbn [cons_obs]. rewrite app_nil_r, Nat.min_0_l, Nat.sub_0_r.
+    split; [reflexivity|]. split; [reflexivity|]. split; [reflexivity|]. split; [exact Hw|].
+    split; [reflexivity|]. split; [reflexivity|]. rewrite <- (elems_length _ Hw). symmetry. apply firstn_all.
+  - apply wp_bind. apply wp_get_len. apply wp_bind.
+    assert (Hnx : wp into_iter_next
+              (fun r w' => cb w' = cb w /\ WF (self w') /\ cap (self w') = cap (self w) /\ log w' = log w /\
+                 match r with
+                 | None => len (self w) = 0 /\ self w' = self w
+                 | Some p => S (len (self w')) = len (self w) /\
+                             Spec.elems (self w) = Spec.elems (self w') ++ [p]
+                 end) (fun _ => False) w).
+    { eapply wp_mono; [apply wp_conj; [apply (into_iter_next_cb w Hw) | apply (into_iter_next_exact w Hw)] | |];
+        cbn beta; [|tauto].
+      intros r w' (H1 & H2 & H3 & H4 & H5). auto 10. }
+    eapply wp_mono; [exact Hnx | | auto]; cbn beta.
+    intros [p|] w1 (Hcb1 & Hw1 & Hc1 & Hl1 & H1).
+    + destruct H1 as [Hlen He].
+      pose proof (elems_length _ Hw1) as HL1.
+      assert (Hrev : rev (Spec.elems (self w)) = p :: rev (Spec.elems (self w1)))
+        by (rewrite He, rev_app_distr; reflexivity).
+      assert (Hrl : length (rev (Spec.elems (self w))) = len (self w))
+        by (rewrite rev_length; apply elems_length; exact Hw).
+      eapply wp_mono; [apply (IH _ w1 Hw1) | | auto]; cbn beta.
+      intros r w3 (Hr & Hlog3 & Hcb3 & Hw3 & Hc3 & Hlen3 & He3).
+      rewrite Hrev in *. cbn [cons_obs].
+      split; [rewrite Hr, <- !app_assoc; cbn [app]; rewrite Hrl; reflexivity|].
+      split; [congruence|]. split; [congruence|].
+      split; [exact Hw3|]. split; [congruence|]. split; [lia|].
+      rewrite He3, He.
+      replace (len (self w) - Nat.min (S n) (len (self w)))
+        with (len (self w1) - Nat.min n (len (self w1))) by lia.
+      symmetry. apply firstn_app_exact. lia.
+    + destruct H1 as [Hlen Hs].
+      assert (Hnil : Spec.elems (self w) = []).
+      { apply length_zero_iff_nil. rewrite (elems_length _ Hw). exact Hlen. }
+      eapply wp_mono; [apply (IH _ w1 Hw1) | | auto]; cbn beta. rewrite Hs, Hnil, Hlen.
+      cbn [rev cons_obs].
+      intros r w3 (Hr & Hlog3 & Hcb3 & Hw3 & Hc3 & Hlen3 & He3).
+      split; [rewrite Hr, <- app_assoc; reflexivity|]. split; [congruence|]. split; [congruence|].
+      split; [exact Hw3|]. split; [exact Hc3|]. split; [lia | exact He3].
+Qed.
+
+End IntoObs.
+
+(* ---------------------------------------------------------------------- *)
+(* fate 2 (for_each(closure)) and fate 3 (count()) of the consuming sessions *)
+(* ---------------------------------------------------------------------- *)
+Section Loops.
+Context {K V Q T : Type} (E : env K V Q T).
+Notation M := (M K V T). Notation world := (world K V T). Notation kv := (K * V)%type.
+
+Lemma bind_ext_pt {A B} (c : M A) (f g : A -> M B) (w : world) :
+  (forall a w', f a w' = g a w') -> bind c f w = bind c g w.
+Proof. intros H. unfold bind. destruct (c w); auto. Qed.
+
+Lemma bind_assoc_pt {A B C} (c : M A) (f : A -> M B) (g : B -> M C) (w : world) :
+  bind (bind c f) g w = bind c (fun x => bind (f x) g) w.
+Proof. unfold bind. destruct (c w); reflexivity. Qed.
+
+(* destructors running while unwinding: log the pair, never panic *)
+Lemma unwind_pair_logs p (w : world) :
+  wp (unwind_pair E p) (fun _ w' => self w' = self w /\ log w' = log w ++ evp E p) (fun _ => False) w.
+Proof.
+  unfold unwind_pair, evp. apply wp_bind. apply wp_emit. apply wp_bind. apply wp_cbd. intros b s.
+  apply wp_bind. apply wp_cbd. intros b' s'. apply wp_ret. simp_w. auto.
+Qed.
+
+Lemma unwind_key_logs k (w : world) :
+  wp (unwind_key E k) (fun _ w' => self w' = self w /\ log w' = log w ++ ev_drops (idK E k))
+     (fun _ => False) w.
+Proof.
+  unfold unwind_key. apply wp_bind. apply wp_emit. apply wp_bind. apply wp_cbd. intros b s.
+  apply wp_ret. simp_w. auto.
+Qed.
+
+Lemma unwind_val_logs v (w : world) :
+  wp (unwind_val E v) (fun _ w' => self w' = self w /\ log w' = log w ++ ev_drops (idV E v))
+     (fun _ => False) w.
+Proof.
+  unfold unwind_val. apply wp_bind. apply wp_emit. apply wp_bind. apply wp_cbd. intros b s.
+  apply wp_ret. simp_w. auto.
+Qed.
+
+Lemma unwind_range_logs n : forall i (w : world),
+  (forall j, i <= j < i + n -> live (self w) j) ->
+  wp (unwind_range E n i)
+     (fun _ w' => log w' = log w ++ flat_map (evp E) (take_live (skipn i (slots (self w))) n) /\
+                  len (self w') = len (self w) /\ cap (self w') = cap (self w))
+     (fun _ => False) w.
+Proof.
+  induction n as [|n IH]; intros i w Hl; cbn [unwind_range].
+  - apply wp_ret. cbn [take_live flat_map]. rewrite app_nil_r. auto.
+  - destruct (Hl i ltac:(lia)) as [p Hp].
+    assert (Hsk : take_live (skipn i (slots (self w))) (S n)
+                  = p :: take_live (skipn (S i) (slots (self w))) n).
+    { rewrite (skipn_nth (slots (self w)) i (Some p) Hp). reflexivity. }
+    rewrite Hsk. apply wp_bind. eapply wp_p_read; [exact Hp|]. apply wp_bind.
+    eapply wp_mono; [apply unwind_pair_logs | | auto]; cbn beta.
+    intros _ w1 [Hs1 Hlog1]. simp_w.
+    assert (Hsk1 : skipn (S i) (slots (self w1)) = skipn (S i) (slots (self w))).
+    { rewrite Hs1. cbn [set_slot_m slots]. apply skipn_upd_lt. lia. }
+    eapply wp_mono; [apply (IH (S i) w1) | | auto]; cbn beta.
+    + intros j Hj. rewrite Hs1. apply live_set_slot_neq; [lia | apply Hl; lia].
+    + intros _ w2 (H2 & H3 & H4). rewrite H2, Hlog1, Hsk1. cbn [flat_map]. rewrite app_assoc.
+      split; [reflexivity|]. rewrite H3, H4, Hs1. split; [reflexivity | apply cap_set_slot].
+Qed.
+
+(* a Drain destroyed while unwinding: exactly the pairs its cursor still owns *)
+Lemma unwind_drain_logs c (w : world) :
+  DrainInv c (self w) ->
+  wp (unwind_drain E c)
+     (fun _ w' => log w' = log w ++ flat_map (evp E) (slot_pairs (self w) c) /\
+                  len (self w') = 0 /\ cap (self w') = cap (self w))
+     (fun _ => False) w.
+Proof.
+  intros (Hl & Hc & Hs). unfold unwind_drain, slot_pairs.
+  eapply wp_mono; [apply unwind_range_logs | | auto]; cbn beta.
+  - intros j Hj. apply Hs. unfold cursor_len in Hj. lia.
+  - intros _ w' (H1 & H2 & H3). split; [exact H1|]. split; [congruence | exact H3].
+Qed.
+
+(* ---- a loop over Drain::next ---- *)
+Fixpoint drain_loop (body : kv -> cursor -> M unit) (fuel : nat) (c : cursor) (cnt : nat) : M nat :=
+  match fuel with
+  | 0 => ret cnt
+  | S f =>
+      '(o, c') <- drain_next c ;;
+      match o with
+      | None => ret cnt
+      | Some p => body p c' ;; drain_loop body f c' (S cnt)
+      end
+  end.
+
+(* what the loop body does with the item p while the Drain's cursor is c':
+   normally it logs [evs p] and leaves the container alone; if it panics, [pev p]
+   was logged and the unwinding Drain destroyed everything it still owned *)
+Definition drain_body_ok (evs pev : kv -> list event) (body : kv -> cursor -> M unit) : Prop :=
+  forall p c' (w : world), DrainInv c' (self w) ->
+    wp (body p c')
+       (fun _ w' => self w' = self w /\ log w' = log w ++ evs p)
+       (fun w' => log w' = log w ++ pev p ++ flat_map (evp E) (slot_pairs (self w) c') /\
+                  len (self w') = 0 /\ cap (self w') = cap (self w))
+       w.
+
+Lemma firstn_skipn_nth {A} (l : list A) t p :
+  nth_error l t = Some p -> l = firstn t l ++ p :: skipn (S t) l.
+Proof.
+  intros H. rewrite <- (firstn_skipn t l) at 1. f_equal. apply skipn_nth. exact H.
+Qed.
+
+Lemma drain_loop_spec (evs pev : kv -> list event) body :
+  drain_body_ok evs pev body ->
+  forall fuel lo hi cnt (w : world),
+    DrainInv (lo, hi) (self w) -> hi - lo < fuel ->
+    wp (drain_loop body fuel (lo, hi) cnt)
+       (fun n w' =>
+          n = cnt + (hi - lo) /\
+          log w' = log w ++ flat_map evs (slot_pairs (self w) (lo, hi)) /\
+          len (self w') = 0 /\ cap (self w') = cap (self w))
+       (fun w' => exists t p,
+          nth_error (slot_pairs (self w) (lo, hi)) t = Some p /\
+          log w' = log w ++ flat_map evs (firstn t (slot_pairs (self w) (lo, hi))) ++ pev p ++
+                            flat_map (evp E) (skipn (S t) (slot_pairs (self w) (lo, hi))) /\
+          len (self w') = 0 /\ cap (self w') = cap (self w))
+       w.
+Proof.
+  intros Hbody. induction fuel as [|fuel IH]; intros lo hi cnt w HD Hf; [lia|]. cbn [drain_loop].
+  apply wp_bind.
+  assert (HDK : wp (drain_next (lo, hi))
+            (fun r w' =>
+               if lo <? hi then
+                 exists p, r = (Some p, (S lo, hi)) /\ DrainInv (S lo, hi) (self w') /\
+                           cb w' = cb w /\ log w' = log w /\ cap (self w') = cap (self w) /\
+                           slot_pairs (self w) (lo, hi) = p :: slot_pairs (self w') (S lo, hi)
+               else r = (None, (lo, hi)) /\ w' = w /\ slot_pairs (self w) (lo, hi) = [])
+            (fun _ => False) w).
+  { pose proof HD as (HDl & HDc & HDs). cbn [fst snd] in HDc, HDs.
+    unfold drain_next. destruct (Nat.ltb_spec lo hi) as [Hlt|Hge].
+    - destruct (HDs lo) as [p Hp]; [lia|].
+      apply wp_bind. eapply wp_p_read; [exact Hp|]. apply wp_ret.
+      exists p. split; [reflexivity|]. simp_w. split.
+      + unfold DrainInv. cbn [fst snd]. rewrite cap_set_slot, len_set_slot.
+        split; [exact HDl|]. split; [exact HDc|].
+        intros j Hj. apply live_set_slot_neq; [lia | apply HDs; lia].
+      + split; [reflexivity|]. split; [reflexivity|]. split; [apply cap_set_slot|].
+        unfold slot_pairs, cursor_len. cbn [fst snd set_slot_m slots].
+        replace (hi - lo) with (S (hi - S lo)) by lia.
+        rewrite (skipn_nth (slots (self w)) lo (Some p) Hp). cbn [take_live].
+        rewrite skipn_upd_lt by lia. reflexivity.
+    - apply wp_ret. split; [reflexivity|]. split; [reflexivity|].
+      unfold slot_pairs, cursor_len. cbn [fst snd]. replace (hi - lo) with 0 by lia. reflexivity. }
+  eapply wp_mono; [exact HDK | | intros ? []]; cbn beta.
+  intros [o c'] w1 H1. destruct (Nat.ltb_spec lo hi) as [Hlt|Hge].
+  - destruct H1 as (p & Hr & HD1 & Hcb1 & Hlog1 & Hcap1 & Hsp). injection Hr as -> ->. rewrite Hsp.
+    apply wp_bind. eapply wp_mono; [apply (Hbody p (S lo, hi) w1 HD1) | |]; cbn beta.
+    + intros _ w2 [Hs2 Hlog2].
+      assert (HD2 : DrainInv (S lo, hi) (self w2)) by (rewrite Hs2; exact HD1).
+      eapply wp_mono; [apply (IH (S lo) hi (S cnt) w2 HD2); lia | |]; cbn beta; rewrite Hs2.
+      * intros n w3 (Hn & Hlog3 & Hl3 & Hc3). split; [lia|]. cbn [flat_map].
+        split; [rewrite Hlog3, Hlog2, Hlog1, <- app_assoc; reflexivity|]. split; [exact Hl3 | congruence].
+      * intros w3 (t & q & Hq & Hlog3 & Hl3 & Hc3). exists (S t), q. cbn [nth_error firstn flat_map].
+        split; [exact Hq|].
+        change (skipn (S (S t)) (p :: slot_pairs (self w1) (S lo, hi)))
+          with (skipn (S t) (slot_pairs (self w1) (S lo, hi))).
+        split; [rewrite Hlog3, Hlog2, Hlog1, <- !app_assoc; reflexivity|]. split; [exact Hl3 | congruence].
+    + intros w2 (Hlog2 & Hl2 & Hc2). exists 0, p. cbn [nth_error firstn flat_map skipn app].
+      split; [reflexivity|]. split; [rewrite Hlog2, Hlog1; reflexivity|]. split; [exact Hl2 | congruence].
+  - destruct H1 as (Hr & -> & Hsp). injection Hr as -> ->. apply wp_ret. rewrite Hsp. cbn [flat_map].
+    rewrite app_nil_r. split; [lia|]. split; [reflexivity|]. split; [apply HD | reflexivity].
+Qed.
+
+(* ---- a loop over IntoIter::next ---- *)
+Fixpoint into_loop (body : kv -> M unit) (fuel cnt : nat) : M nat :=
+  match fuel with
+  | 0 => ret cnt
+  | S f =>
+      o <- into_iter_next ;;
+      match o with
+      | None => ret cnt
+      | Some p => body p ;; into_loop body f (S cnt)
+      end
+  end.
+
+(* the body leaves the iterator's container alone; normally it logs [evs p]; if
+   it panics it has logged some [part] with [pev p part] *)
+Definition into_body_ok (evs : kv -> list event) (pev : kv -> list event -> Prop) (body : kv -> M unit) : Prop :=
+  forall p (w : world),
+    wp (body p)
+       (fun _ w' => self w' = self w /\ log w' = log w ++ evs p)
+       (fun w' => self w' = self w /\ exists part, pev p part /\ log w' = log w ++ part)
+       w.
+
+Lemma into_loop_spec evs pev body :
+  into_body_ok evs pev body ->
+  forall fuel cnt (w : world),
+    WF (self w) -> len (self w) < fuel ->
+    wp (into_loop body fuel cnt)
+       (fun n w' =>
+          n = cnt + len (self w) /\
+          log w' = log w ++ flat_map evs (rev (Spec.elems (self w))) /\
+          WF (self w') /\ len (self w') = 0 /\ cap (self w') = cap (self w))
+       (fun w' => exists t p part,
+          nth_error (rev (Spec.elems (self w))) t = Some p /\ pev p part /\
+          log w' = log w ++ flat_map evs (firstn t (rev (Spec.elems (self w)))) ++ part /\
+          WF (self w') /\ cap (self w') = cap (self w) /\
+          len (self w') = len (self w) - S t /\
+          Spec.elems (self w') = firstn (len (self w) - S t) (Spec.elems (self w)))
+       w.
+Proof.
+  intros Hbody. induction fuel as [|fuel IH]; intros cnt w Hw Hf; [lia|]. cbn [into_loop].
+  apply wp_bind.
+  eapply wp_mono; [apply into_iter_next_exact; exact Hw | | intros ? []]; cbn beta.
+  intros [p|] w1 (Hw1 & Hc1 & Hl1 & H1).
+  - destruct H1 as [Hlen He].
+    pose proof (elems_length _ Hw1) as HL1.
+    assert (Hrev : rev (Spec.elems (self w)) = p :: rev (Spec.elems (self w1)))
+      by (rewrite He, rev_app_distr; reflexivity).
+    apply wp_bind. eapply wp_mono; [apply (Hbody p w1) | |]; cbn beta.
+    + intros _ w2 [Hs2 Hlog2].
+      assert (Hw2 : WF (self w2)) by (rewrite Hs2; exact Hw1).
+      eapply wp_mono; [apply (IH (S cnt) w2 Hw2); rewrite Hs2; lia | |]; cbn beta; rewrite Hs2.
+      * intros n w3 (Hn & Hlog3 & Hw3 & Hl3 & Hc3). split; [lia|]. rewrite Hrev. cbn [flat_map].
+        split; [rewrite Hlog3, Hlog2, Hl1, <- app_assoc; reflexivity|].
+        split; [exact Hw3|]. split; [exact Hl3 | congruence].
+      * intros w3 (t & q & part & Hq & Hpv & Hlog3 & Hw3 & Hc3 & Hl3 & He3).
+        exists (S t), q, part. rewrite Hrev. cbn [nth_error firstn flat_map].
+        split; [exact Hq|]. split; [exact Hpv|].
+        split; [rewrite Hlog3, Hlog2, Hl1, <- !app_assoc; reflexivity|].
+        split; [exact Hw3|]. split; [congruence|]. split; [lia|].
+        rewrite He3, He. replace (len (self w) - S (S t)) with (len (self w1) - S t) by lia.
+        symmetry. apply firstn_app_exact. lia.
+    + intros w2 (Hs2 & part & Hpv & Hlog2). exists 0, p, part. rewrite Hrev. cbn [nth_error firstn flat_map app].
+      split; [reflexivity|]. split; [exact Hpv|]. split; [congruence|]. rewrite Hs2.
+      split; [exact Hw1|]. split; [exact Hc1|]. split; [lia|].
+      rewrite He. replace (len (self w) - 1) with (length (Spec.elems (self w1))) by lia.
+      rewrite firstn_app_exact by lia. symmetry. apply firstn_all.
+  - destruct H1 as [Hlen Hs]. apply wp_ret.
+    assert (Hnil : Spec.elems (self w) = []).
+    { apply length_zero_iff_nil. rewrite (elems_length _ Hw). exact Hlen. }
+    rewrite Hs, Hnil, Hlen. cbn [rev flat_map]. rewrite app_nil_r.
+    split; [lia|]. split; [exact Hl1|]. split; [exact Hw|]. split; reflexivity.
+Qed.
+
+End Loops.
+
+(* ---- the interpreter's loops are instances ---- *)
+Section DrainFates.
+Context {V : Type} (E : env key V query cstate).
+Notation world := (world key V cstate). Notation kv := (key * V)%type.
+
+Definition count_body (p : kv) (c' : cursor) : M key V cstate unit :=
+  on_unwind (unwind_drain E c') (drop_pair E p).
+
+Lemma drain_count_is_loop : forall fuel c cnt (w : world),
+  drain_count E fuel c cnt w = drain_loop count_body fuel c cnt w.
+Proof.
+  induction fuel as [|fuel IH]; intros c cnt w; [reflexivity|]. cbn [drain_count drain_loop].
+  apply bind_ext_pt. intros [o c'] w1. destruct o as [p|]; [|reflexivity].
+  apply bind_ext_pt. intros _ w2. apply IH.
+Qed.
+
+Lemma count_body_ok : drain_body_ok E (evp E) (evp E) count_body.
+Proof.
+  intros p c' w HD. unfold count_body. apply wp_on_unwind.
+  eapply wp_mono; [apply (drop_pair_logs E p w) | |]; cbn beta.
+  - intros _ w1 H. exact H.
+  - intros w1 [Hs1 Hlog1].
+    assert (HD1 : DrainInv c' (self w1)) by (rewrite Hs1; exact HD).
+    eapply wp_mono; [apply (unwind_drain_logs E c' w1 HD1) | | intros ? []]; cbn beta.
+    intros _ w2 (H1 & H2 & H3). rewrite Hs1 in *.
+    split; [rewrite H1, Hlog1, <- app_assoc; reflexivity | auto].
+Qed.
+
+(* fate 3, Drain::count() (the library default: fold over next(), every item
+   destroyed as soon as it has been counted).  Any environment: the count is the
+   number of pairs the cursor still owned; EVERY one of those pairs is destroyed
+   exactly once, in slot order, whether count() returns or a Drop panics (then
+   the Drain unwinds and destroys the rest); the register is empty *)
+Lemma drain_count_exact c cnt (w : world) :
+  DrainInv c (self w) ->
+  let post := fun w' : world =>
+    log w' = log w ++ flat_map (evp E) (slot_pairs (self w) c) /\
+    len (self w') = 0 /\ cap (self w') = cap (self w) in
+  wp (drain_count E (S (cursor_len c)) c cnt)
+     (fun n w' => n = cnt + cursor_len c /\ post w') post w.
+Proof.
+  intros HD post. destruct c as [lo hi]. unfold wp. rewrite drain_count_is_loop.
+  pose proof (drain_loop_spec E (evp E) (evp E) count_body count_body_ok
+                (S (cursor_len (lo, hi))) lo hi cnt w HD) as H.
+  unfold cursor_len in *. cbn [fst snd] in *. specialize (H ltac:(lia)). unfold wp in H.
+  destruct (drain_loop count_body (S (hi - lo)) (lo, hi) cnt w) as [n w'|w'|]; [| |exact H].
+  - destruct H as (H1 & H2 & H3 & H4). unfold post. auto.
+  - destruct H as (t & p & Hp & H2 & H3 & H4). unfold post. split; [|auto].
+    rewrite H2. rewrite (firstn_skipn_nth _ t p Hp) at 3.
+    rewrite flat_map_app. cbn [flat_map]. reflexivity.
+Qed.
+
+(* fate 2, for_each(closure) *)
+Lemma call_body_ok cl :
+  drain_body_ok E (fun _ => [EvCall 4]) (fun p => [EvCall 4] ++ evp E p) (call_or_drain E cl).
+Proof.
+  intros p c' w HD. unfold call_or_drain. apply wp_on_unwind.
+  apply wp_bind. apply wp_emit. apply wp_bind. apply wp_cbk.
+  - intros s. apply wp_ret. simp_w. auto.
+  - intros s. apply wp_ret. simp_w. auto.
+  - intros s. set (w1 := with_cb _ s). apply wp_bind.
+    eapply wp_mono; [apply (unwind_pair_logs E p w1) | | intros ? []]; cbn beta.
+    intros _ w2 [Hs2 Hlog2].
+    assert (HD2 : DrainInv c' (self w2)) by (rewrite Hs2; exact HD).
+    eapply wp_mono; [apply (unwind_drain_logs E c' w2 HD2) | | intros ? []]; cbn beta.
+    intros _ w3 (H1 & H2 & H3). rewrite Hs2 in *. unfold w1 in *. simp_w.
+    split; [rewrite H1, Hlog2, <- !app_assoc; reflexivity | auto].
+Qed.
+
+Lemma drain_for_each_is_loop cl : forall fuel c cnt (w : world),
+  drain_for_each E cl fuel c cnt w = drain_loop (call_or_drain E cl) fuel c cnt w.
+Proof.
+  induction fuel as [|fuel IH]; intros c cnt w; [reflexivity|]. cbn [drain_for_each drain_loop].
+  apply bind_ext_pt. intros [o c'] w1. destruct o as [p|]; [|reflexivity].
+  apply bind_ext_pt. intros _ w2. apply IH.
+Qed.
+
+Lemma flat_map_const {A B} (l : list A) (x : B) : flat_map (fun _ => [x]) l = repeat x (length l).
+Proof. induction l as [|a l IH]; [reflexivity|]. cbn [flat_map length repeat app]. rewrite IH. reflexivity. Qed.
+
+(* the count returned is the number of pairs the cursor still owned and the
+   closure was called exactly once per pair (one EvCall 4 each), nothing is
+   destroyed by the Drain; if the closure panics on pair t it had been called
+   t+1 times, and that pair and all later ones are destroyed (by the closure's
+   frame and by the unwinding Drain), each once, in order; the register is empty *)
+Lemma drain_for_each_exact cl c cnt (w : world) :
+  DrainInv c (self w) ->
+  wp (drain_for_each E cl (S (cursor_len c)) c cnt)
+     (fun n w' => n = cnt + cursor_len c /\
+                  log w' = log w ++ repeat (EvCall 4) (cursor_len c) /\
+                  len (self w') = 0 /\ cap (self w') = cap (self w))
+     (fun w' => exists t, t < cursor_len c /\
+                  log w' = log w ++ repeat (EvCall 4) (S t) ++
+                           flat_map (evp E) (skipn t (slot_pairs (self w) c)) /\
+                  len (self w') = 0 /\ cap (self w') = cap (self w))
+     w.
+Proof.
+  intros HD. destruct c as [lo hi]. unfold wp. rewrite drain_for_each_is_loop.
+  pose proof (drain_loop_spec E _ _ _ (call_body_ok cl) (S (cursor_len (lo, hi))) lo hi cnt w HD) as H.
+  pose proof (slot_pairs_length _ _ HD) as Hlen.
+  unfold cursor_len in *. cbn [fst snd] in *. specialize (H ltac:(lia)). unfold wp in H.
+  destruct (drain_loop (call_or_drain E cl) (S (hi - lo)) (lo, hi) cnt w) as [n w'|w'|]; [| |exact H].
+  - destruct H as (H1 & H2 & H3 & H4). rewrite flat_map_const, Hlen in H2. auto.
+  - destruct H as (t & p & Hp & H2 & H3 & H4). exists t.
+    assert (Ht : t < hi - lo) by (rewrite <- Hlen; apply nth_error_Some; rewrite Hp; discriminate).
+    split; [exact Ht|]. split; [|auto]. rewrite H2, flat_map_const, firstn_length_le by lia.
+    rewrite (skipn_nth _ t p Hp). cbn [flat_map].
+    replace (S t) with (t + 1) by lia. rewrite repeat_app. cbn [repeat]. rewrite <- !app_assoc. reflexivity.
+Qed.
+
+End DrainFates.
+
+Section IntoFates.
+Context (sc : script).
+Notation Em := (env_map sc).
+Notation Es := (env_set sc).
+Notation mworld := (world key vobj cstate).
+Notation sworld := (world key unit cstate).
+
+(* what count() destroys after next() has destroyed the unused half: the half
+   that was yielded *)
+Definition rest_evs (kind : N) (p : key * vobj) : list event :=
+  if N.eqb kind 1 then ev_drops (idK Em (fst p))
+  else if N.eqb kind 2 then ev_drops (idV Em (snd p)) else evp Em p.
+Definition count_evs (kind : N) (p : key * vobj) : list event := into_evs sc kind p ++ rest_evs kind p.
+
+Lemma into_rest_spec kind p (w : mworld) :
+  let post := fun w' : mworld => self w' = self w /\ log w' = log w ++ rest_evs kind p in
+  wp (into_rest sc kind p) (fun _ => post) post w.
+Proof.
+  intros post. subst post. unfold into_rest, rest_evs.
+  destruct (N.eqb kind 1); [|destruct (N.eqb kind 2)].
+  - apply (drop_key_spec Em (fst p) w).
+  - apply (drop_val_spec Em (snd p) w).
+  - apply (drop_pair_logs Em p w).
+Qed.
+
+Lemma unwind_item_spec kind p (w : mworld) :
+  wp (unwind_item sc kind p) (fun _ w' => self w' = self w /\ log w' = log w ++ rest_evs kind p)
+     (fun _ => False) w.
+Proof.
+  unfold unwind_item, rest_evs. destruct (N.eqb kind 1); [|destruct (N.eqb kind 2)].
+  - apply unwind_key_logs.
+  - apply unwind_val_logs.
+  - apply unwind_pair_logs.
+Qed.
+
+(* ---- fate 3: count() of IntoKeys / IntoValues (library default) ---- *)
+Definition icount_body (kind : N) (p : key * vobj) : Mm unit :=
+  _ <- into_steps_item sc kind p ;; into_rest sc kind p.
+
+Lemma into_count_is_loop kind : forall fuel cnt (w : mworld),
+  into_count sc kind fuel cnt w = into_loop (icount_body kind) fuel cnt w.
+Proof.
+  induction fuel as [|fuel IH]; intros cnt w; [reflexivity|]. cbn [into_count into_loop].
+  apply bind_ext_pt. intros [p|] w1; [|reflexivity]. unfold icount_body.
+  rewrite bind_assoc_pt. apply bind_ext_pt. intros it w2.
+  apply bind_ext_pt. intros _ w3. apply IH.
+Qed.
+
+Lemma icount_body_ok kind :
+  into_body_ok (count_evs kind)
+               (fun p part => part = into_evs sc kind p \/ part = count_evs kind p)
+               (icount_body kind).
+Proof.
+  intros p w. unfold icount_body. apply wp_bind.
+  eapply wp_mono; [apply (into_steps_item_spec sc kind p w) | |]; cbn beta.
+  - intros it w1 (_ & Hs1 & Hlog1).
+    eapply wp_mono; [apply (into_rest_spec kind p w1) | |]; cbn beta.
+    + intros _ w2 [Hs2 Hlog2]. split; [congruence|]. unfold count_evs. rewrite Hlog2, Hlog1, app_assoc. reflexivity.
+    + intros w2 [Hs2 Hlog2]. split; [congruence|]. eexists. split; [right; reflexivity|].
+      unfold count_evs. rewrite Hlog2, Hlog1, app_assoc. reflexivity.
+  - intros w1 (Hs1 & Hlog1). split; [exact Hs1|]. eexists. split; [left; reflexivity | exact Hlog1].
+Qed.
+
+(* every script.  Normal return: the count is the number of entries the iterator
+   still held; for EVERY one of them, from the back, the unused half and then the
+   yielded half were destroyed (count_evs), each once; the iterator is empty.
+   Panic at entry t: entries 0..t-1 were destroyed completely, of entry t either
+   only the unused half (its Drop panicked) or both halves; the iterator still
+   holds the prefix of length len - S t (the session's finally_drop then destroys
+   it while unwinding). *)
+Lemma into_count_exact kind cnt (w : mworld) :
+  WF (self w) ->
+  wp (into_count sc kind (S (len (self w))) cnt)
+     (fun n w' =>
+        n = cnt + len (self w) /\
+        log w' = log w ++ flat_map (count_evs kind) (rev (Spec.elems (self w))) /\
+        WF (self w') /\ len (self w') = 0 /\ cap (self w') = cap (self w))
+     (fun w' => exists t p part,
+        nth_error (rev (Spec.elems (self w))) t = Some p /\
+        (part = into_evs sc kind p \/ part = count_evs kind p) /\
+        log w' = log w ++ flat_map (count_evs kind) (firstn t (rev (Spec.elems (self w)))) ++ part /\
+        WF (self w') /\ cap (self w') = cap (self w) /\
+        len (self w') = len (self w) - S t /\
+        Spec.elems (self w') = firstn (len (self w) - S t) (Spec.elems (self w)))
+     w.
+Proof.
+  intros Hw. unfold wp. rewrite into_count_is_loop.
+  exact (into_loop_spec _ _ _ (icount_body_ok kind) (S (len (self w))) cnt w Hw (Nat.lt_succ_diag_r _)).
+Qed.
+
+(* IntoIter::count() is overridden (src/iterators.rs): it reports the length,
+   then the iterator is dropped: the entries are destroyed in SLOT order *)
+Lemma into_count0_exact (w : mworld) :
+  WF (self w) ->
+  wp (l <- get_len ;; drop_map Em ;; ret [nn l])
+     (fun r w' => r = [nn (len (self w))] /\
+                  log w' = log w ++ flat_map (evp Em) (Spec.elems (self w)))
+     (fun w' => exists k, log w' = log w ++ flat_map (evp Em) (firstn k (Spec.elems (self w))))
+     w.
+Proof.
+  intros [Hl Hs]. apply wp_bind. apply wp_get_len. apply wp_bind. unfold drop_map.
+  apply wp_bind. apply wp_get_len.
+  eapply wp_mono; [apply (drop_range_logs Em (len (self w)) 0 w) | |]; cbn beta.
+  - intros j Hj. apply Hs. lia.
+  - intros _ w' H. apply wp_ret. split; [reflexivity | exact H].
+  - intros w' H. exact H.
+Qed.
+
+(* ---- fate 2: for_each(closure) on IntoIter / IntoKeys / IntoValues ---- *)
+Definition ieach_body (kind : N) (p : key * vobj) : Mm unit :=
+  _ <- into_steps_item sc kind p ;;
+  on_unwind (unwind_item sc kind p) (emit [EvCall 4] ;; _ <- cbk (nx_cb sc) ;; ret tt).
+
+Lemma into_for_each_is_loop kind : forall fuel cnt (w : mworld),
+  into_for_each sc kind fuel cnt w = into_loop (ieach_body kind) fuel cnt w.
+Proof.
+  induction fuel as [|fuel IH]; intros cnt w; [reflexivity|]. cbn [into_for_each into_loop].
+  apply bind_ext_pt. intros [p|] w1; [|reflexivity]. unfold ieach_body.
+  rewrite bind_assoc_pt. apply bind_ext_pt. intros it w2.
+  apply bind_ext_pt. intros _ w3. apply IH.
+Qed.
+
+Lemma call_closure_spec (cleanup : Mm unit) (evs : list event) (w : mworld) :
+  (forall w0 : mworld, wp cleanup (fun _ w' => self w' = self w0 /\ log w' = log w0 ++ evs)
+                          (fun _ => False) w0) ->
+  wp (on_unwind cleanup (emit [EvCall 4] ;; _ <- cbk (nx_cb sc) ;; ret tt))
+     (fun _ w' => self w' = self w /\ log w' = log w ++ [EvCall 4])
+     (fun w' => self w' = self w /\ log w' = log w ++ [EvCall 4] ++ evs) w.
+Proof.
+  intros Hc. apply wp_on_unwind. apply wp_bind. apply wp_emit. apply wp_bind. apply wp_cbk.
+  - intros s. apply wp_ret. simp_w. auto.
+  - intros s. apply wp_ret. simp_w. auto.
+  - intros s. eapply wp_mono; [apply Hc | | intros ? []]; cbn beta.
+    intros _ w2 [Hs2 Hlog2]. simp_w. rewrite Hlog2, <- app_assoc. auto.
+Qed.
+
+Lemma ieach_body_ok kind :
+  into_body_ok (fun p => into_evs sc kind p ++ [EvCall 4])
+               (fun p part => part = into_evs sc kind p \/
+                              part = into_evs sc kind p ++ [EvCall 4] ++ rest_evs kind p)
+               (ieach_body kind).
+Proof.
+  intros p w. unfold ieach_body. apply wp_bind.
+  eapply wp_mono; [apply (into_steps_item_spec sc kind p w) | |]; cbn beta.
+  - intros it w1 (_ & Hs1 & Hlog1).
+    eapply wp_mono; [apply (call_closure_spec _ (rest_evs kind p) w1); intros w0; apply unwind_item_spec | |];
+      cbn beta.
+    + intros _ w2 [Hs2 Hlog2]. split; [congruence|]. rewrite Hlog2, Hlog1, app_assoc. reflexivity.
+    + intros w2 [Hs2 Hlog2]. split; [congruence|]. eexists. split; [right; reflexivity|].
+      rewrite Hlog2, Hlog1, <- !app_assoc. reflexivity.
+  - intros w1 (Hs1 & Hlog1). split; [exact Hs1|]. eexists. split; [left; reflexivity | exact Hlog1].
+Qed.
+
+(* the count is the number of entries left and the closure is called exactly
+   once per entry (one EvCall 4 each, after next() destroyed the unused half);
+   on a panic at entry t: either the Drop of its unused half panicked (closure
+   not called), or the closure panicked and the item it owned was destroyed *)
+Lemma into_for_each_exact kind cnt (w : mworld) :
+  WF (self w) ->
+  wp (into_for_each sc kind (S (len (self w))) cnt)
+     (fun n w' =>
+        n = cnt + len (self w) /\
+        log w' = log w ++ flat_map (fun p => into_evs sc kind p ++ [EvCall 4]) (rev (Spec.elems (self w))) /\
+        WF (self w') /\ len (self w') = 0 /\ cap (self w') = cap (self w))
+     (fun w' => exists t p part,
+        nth_error (rev (Spec.elems (self w))) t = Some p /\
+        (part = into_evs sc kind p \/ part = into_evs sc kind p ++ [EvCall 4] ++ rest_evs kind p) /\
+        log w' = log w ++ flat_map (fun p => into_evs sc kind p ++ [EvCall 4])
+                                   (firstn t (rev (Spec.elems (self w)))) ++ part /\
+        WF (self w') /\ cap (self w') = cap (self w) /\
+        len (self w') = len (self w) - S t /\
+        Spec.elems (self w') = firstn (len (self w) - S t) (Spec.elems (self w)))
+     w.
+Proof.
+  intros Hw. unfold wp. rewrite into_for_each_is_loop.
+  exact (into_loop_spec _ _ _ (ieach_body_ok kind) (S (len (self w))) cnt w Hw (Nat.lt_succ_diag_r _)).
+Qed.
+
+(* ---- Set::into_iter: fate 3 and fate 2 ---- *)
+Lemma set_into_count_is_loop : forall fuel cnt (w : sworld),
+  set_into_count sc fuel cnt w = into_loop (fun p => drop_key Es (fst p)) fuel cnt w.
+Proof.
+  induction fuel as [|fuel IH]; intros cnt w; [reflexivity|]. cbn [set_into_count into_loop].
+  apply bind_ext_pt. intros [p|] w1; [|reflexivity]. apply bind_ext_pt. intros _ w2. apply IH.
+Qed.
+
+Definition skey_evs (p : key * unit) : list event := ev_drops (idK Es (fst p)).
+
+Lemma set_into_count_exact cnt (w : sworld) :
+  WF (self w) ->
+  wp (set_into_count sc (S (len (self w))) cnt)
+     (fun n w' =>
+        n = cnt + len (self w) /\
+        log w' = log w ++ flat_map skey_evs (rev (Spec.elems (self w))) /\
+        WF (self w') /\ len (self w') = 0 /\ cap (self w') = cap (self w))
+     (fun w' => exists t,
+        t < len (self w) /\
+        log w' = log w ++ flat_map skey_evs (firstn (S t) (rev (Spec.elems (self w)))) /\
+        WF (self w') /\ cap (self w') = cap (self w) /\
+        len (self w') = len (self w) - S t /\
+        Spec.elems (self w') = firstn (len (self w) - S t) (Spec.elems (self w)))
+     w.
+Proof.
+  intros Hw. unfold wp. rewrite set_into_count_is_loop.
+  assert (Hok : into_body_ok skey_evs (fun p part => part = skey_evs p) (fun p : key * unit => drop_key Es (fst p))).
+  { intros p w0. eapply wp_mono; [apply (drop_key_spec Es (fst p) w0) | |]; cbn beta.
+    - intros _ w1 H. exact H.
+    - intros w1 [H1 H2]. split; [exact H1|]. eexists. split; [reflexivity | exact H2]. }
+  pose proof (into_loop_spec _ _ _ Hok (S (len (self w))) cnt w Hw (Nat.lt_succ_diag_r _)) as H.
+  unfold wp in H.
+  destruct (into_loop (fun p : key * unit => drop_key Es (fst p)) (S (len (self w))) cnt w) as [n w'|w'|];
+    [exact H | | exact H].
+  destruct H as (t & p & part & Hp & -> & Hlog & H4 & H5 & H6 & H7). exists t.
+  assert (Ht : t < len (self w)).
+  { rewrite <- (elems_length _ Hw), <- rev_length. apply nth_error_Some. rewrite Hp. discriminate. }
+  split; [exact Ht|]. split; [|auto].
+  rewrite Hlog. f_equal.
+  rewrite (firstn_skipn_nth _ t p Hp) at 2. rewrite firstn_app.
+  rewrite firstn_length_le by (rewrite rev_length, (elems_length _ Hw); lia).
+  replace (S t - t) with 1 by lia. rewrite firstn_firstn, Nat.min_r by lia. cbn [firstn].
+  rewrite flat_map_app. cbn [flat_map]. rewrite app_nil_r. reflexivity.
+Qed.
+
+Lemma set_into_for_each_is_loop : forall fuel cnt (w : sworld),
+  set_into_for_each sc fuel cnt w =
+  into_loop (fun p => on_unwind (unwind_key Es (fst p)) (emit [EvCall 4] ;; _ <- cbk (nx_cb sc) ;; ret tt))
+            fuel cnt w.
+Proof.
+  induction fuel as [|fuel IH]; intros cnt w; [reflexivity|]. cbn [set_into_for_each into_loop].
+  apply bind_ext_pt. intros [p|] w1; [|reflexivity]. apply bind_ext_pt. intros _ w2. apply IH.
+Qed.
+
+Lemma set_into_for_each_exact cnt (w : sworld) :
+  WF (self w) ->
+  wp (set_into_for_each sc (S (len (self w))) cnt)
+     (fun n w' =>
+        n = cnt + len (self w) /\
+        log w' = log w ++ repeat (EvCall 4) (len (self w)) /\
+        WF (self w') /\ len (self w') = 0 /\ cap (self w') = cap (self w))
+     (fun w' => exists t p,
+        nth_error (rev (Spec.elems (self w))) t = Some p /\
+        log w' = log w ++ repeat (EvCall 4) (S t) ++ skey_evs p /\
+        WF (self w') /\ cap (self w') = cap (self w) /\
+        len (self w') = len (self w) - S t /\
+        Spec.elems (self w') = firstn (len (self w) - S t) (Spec.elems (self w)))
+     w.
+Proof.
+  intros Hw. unfold wp. rewrite set_into_for_each_is_loop.
+  set (body := fun p : key * unit =>
+                 on_unwind (unwind_key Es (fst p)) (emit [EvCall 4] ;; _ <- cbk (nx_cb sc) ;; ret tt)).
+  assert (Hok : into_body_ok (fun _ => [EvCall 4]) (fun p part => part = [EvCall 4] ++ skey_evs p) body).
+  { intros p w0. unfold body. apply wp_on_unwind. apply wp_bind. apply wp_emit. apply wp_bind. apply wp_cbk.
+    - intros s. apply wp_ret. simp_w. auto.
+    - intros s. apply wp_ret. simp_w. auto.
+    - intros s. eapply wp_mono; [apply unwind_key_logs | | intros ? []]; cbn beta.
+      intros _ w2 [Hs2 Hlog2]. simp_w. split; [exact Hs2|]. eexists. split; [reflexivity|].
+      rewrite Hlog2, <- app_assoc. reflexivity. }
+  pose proof (into_loop_spec _ _ _ Hok (S (len (self w))) cnt w Hw (Nat.lt_succ_diag_r _)) as H.
+  unfold wp in H. fold body.
+  destruct (into_loop body (S (len (self w))) cnt w) as [n w'|w'|]; [ | | exact H].
+  - destruct H as (H1 & H2 & H3). rewrite flat_map_const, rev_length, (elems_length _ Hw) in H2. auto.
+  - destruct H as (t & p & part & Hp & -> & Hlog & H4). exists t, p. split; [exact Hp|]. split; [|exact H4].
+    assert (Ht : t < len (self w)).
+    { rewrite <- (elems_length _ Hw), <- rev_length. apply nth_error_Some. rewrite Hp. discriminate. }
+    rewrite Hlog, flat_map_const, firstn_length_le by (rewrite rev_length, (elems_length _ Hw); lia).
+    replace (S t) with (t + 1) by lia. rewrite repeat_app. cbn [repeat]. rewrite <- !app_assoc. reflexivity.
+Qed.
+
+End IntoFates.
+
+(* ====================================================================== *)
+(* R2-D (C10): reuse after a drain with an ARBITRARY Drop; None forever    *)
+(* ====================================================================== *)
+Section Reuse2.
+Context {K V Q T : Type}.
+Notation world := (world K V T).
+
+(* E: the environment the drain runs in (any Drop, it may panic).  E': a lawful
+   environment for the history that follows (the same == on the same types; it
+   is a different record only because Lawful also demands a non-panicking Drop).
+   Both outcomes of the drain are reachable (C10 examples). *)
+Theorem drain_then_run_refines2 (E E' : env K V Q T) (debug : bool) (ck : K -> N) (cq : Q -> N)
+        (HL : Lawful E' ck cq) take (ops : list (@Dict.dop K V Q)) (w : world) :
+  WF (self w) ->
+  match (c <- drain ;; r <- drain_run take c ;; drain_drop E (snd r)) w with
+  | Ok _ w' | Panic w' =>
+      cap (self w') = cap (self w) /\
+      mrun E' debug ops w' = drun ck cq (cap (self w)) ops [] /\
+      forall s lg, mrun E' debug ops w' =
+                   mrun E' debug ops {| cb := s; log := lg; self := new_map (cap (self w)) |}
+  | UB => False
+  end.
+Proof.
+  intros Hw. pose proof (drain_session_Abs E ck take w Hw) as H. cbv zeta in H. unfold wp in H.
+  destruct ((c <- drain ;; r <- drain_run take c ;; drain_drop E (snd r)) w) as [u w'|w'|];
+    [| |exact H]; destruct H as [Ha Hc];
+    (split; [exact Hc|]; split;
+     [apply (run_refines E' debug ck cq HL _ ops w' [] Ha Hc)
+     |intros s lg; rewrite (run_refines_new E' debug ck cq HL);
+      apply (run_refines E' debug ck cq HL _ ops w' [] Ha Hc)]).
+Qed.
+
+Context (E : env K V Q T).
+
+(* "None forever after the end": on an empty IntoKeys / IntoValues, next()
+   returns None and changes nothing (so it does again) *)
+Lemma into_keys_next_end (w : world) : len (self w) = 0 -> into_keys_next E w = Ok None w.
+Proof. intros H. unfold into_keys_next, into_iter_next, bind, get_len. rewrite H. reflexivity. Qed.
+
+Lemma into_values_next_end (w : world) : len (self w) = 0 -> into_values_next E w = Ok None w.
+Proof. intros H. unfold into_values_next, into_iter_next, bind, get_len. rewrite H. reflexivity. Qed.
+
+Lemma proj_run_end {A} (next : M K V T (option A)) (w : world) :
+  next w = Ok None w -> forall n, proj_run next n w = Ok [] w.
+Proof. intros H [|n]; [reflexivity|]. cbn [proj_run]. unfold bind. rewrite H. reflexivity. Qed.
+
+(* once the session has taken at least len items (normal return), every further
+   next() is None, and any number of further calls yields nothing *)
+Lemma into_keys_fused n (w : world) :
+  WF (self w) -> len (self w) <= n ->
+  wp (into_keys_run E n)
+     (fun _ w' => len (self w') = 0 /\ into_keys_next E w' = Ok None w' /\
+                  forall m, into_keys_run E m w' = Ok [] w')
+     (fun _ => True) w.
+Proof.
+  intros Hw Hn. eapply wp_mono; [apply (into_keys_run_spec E n w Hw) | | auto]; cbn beta; cbv zeta.
+  intros r w' (_ & _ & _ & _ & Hl & _).
+  assert (H0 : len (self w') = 0) by lia. split; [exact H0|].
+  split; [apply into_keys_next_end; exact H0|].
+  intros m. apply proj_run_end. apply into_keys_next_end. exact H0.
+Qed.
+
+Lemma into_values_fused n (w : world) :
+  WF (self w) -> len (self w) <= n ->
+  wp (into_values_run E n)
+     (fun _ w' => len (self w') = 0 /\ into_values_next E w' = Ok None w' /\
+                  forall m, into_values_run E m w' = Ok [] w')
+     (fun _ => True) w.
+Proof.
+  intros Hw Hn. eapply wp_mono; [apply (into_values_run_spec E n w Hw) | | auto]; cbn beta; cbv zeta.
+  intros r w' (_ & _ & _ & _ & Hl & _).
+  assert (H0 : len (self w') = 0) by lia. split; [exact H0|].
+  split; [apply into_values_next_end; exact H0|].
+  intros m. apply proj_run_end. apply into_values_next_end. exact H0.
+Qed.
+
+End Reuse2.
